@@ -59,6 +59,16 @@ func (c *conn) receiveOpen(msg pmpx.Message) status.Status {
 		return mpxErrorf("received open message for existing channel, channel=%v", id)
 	}
 
+	// Check again, like createChannel. The receive loop may still parse buffered open
+	// messages when the connection is closed by the send loop, such channels would be
+	// added after closeChannels has freed the others, and never be freed.
+	if c.channelsClosed.Load() {
+		c.channels.Delete(id)
+		ch.Free()
+		ch.free()
+		return statusConnClosed
+	}
+
 	// Start handler
 	h := newChannelHandler(c, ch)
 	workerPool.Run(h)
